@@ -139,36 +139,23 @@ class MinSumLDPCDecoder(BeliefPropagationDecoder):
                 vc_extended = vc.unsqueeze(1).repeat_interleave(deg * members, dim=1)
                 vc_group_messages = vc_extended.gather(2, ext_ce)
 
-                # Min-Sum check node operation
-                # 1. Extract signs and magnitudes
+                # Min-Sum check node operation. Row e of vc_group_messages already holds the
+                # messages of all edges of the check node *other than* edge e (the extrinsic set),
+                # so the outgoing message on edge e is the product of their signs times the
+                # minimum of their magnitudes.
                 signs = torch.sign(vc_group_messages)
                 magnitudes = torch.abs(vc_group_messages)
+                sign_product = torch.prod(signs, dim=2)
+                min_magnitudes, _ = torch.min(magnitudes, dim=2)
 
-                # 2. Compute output signs (XOR of input signs)
-                sign_product = torch.prod(signs, dim=2, keepdim=True)
-                output_signs = sign_product * signs  # Extrinsic sign
-
-                # 3. Compute output magnitudes (min of input magnitudes)
-                # For each output, take min over all other inputs (extrinsic minimum)
-                min_magnitudes = torch.zeros_like(vc_group_messages)
-                for i in range(vc_group_messages.size(2)):
-                    # Create mask to exclude current position
-                    mask = torch.ones_like(vc_group_messages, dtype=torch.bool)
-                    mask[:, :, i] = False
-
-                    # Find minimum over other positions
-                    other_magnitudes = magnitudes.masked_select(mask).view(batch_size, deg * members, -1)
-                    min_vals, _ = torch.min(other_magnitudes, dim=2)
-                    min_magnitudes[:, :, i] = min_vals
-
-                # 4. Combine signs and magnitudes
-                v_messages = output_signs * min_magnitudes
-
-                # 5. Apply scaling factor and offset (for improved Min-Sum variants)
+                # Apply scaling factor and offset (for improved Min-Sum variants); the offset
+                # reduces the magnitude but never changes the sign
                 if self.scaling_factor != 1.0:
-                    v_messages = v_messages * self.scaling_factor
+                    min_magnitudes = min_magnitudes * self.scaling_factor
                 if self.offset != 0.0:
-                    v_messages = v_messages - torch.sign(v_messages) * self.offset
+                    min_magnitudes = torch.clamp(min_magnitudes - self.offset, min=0.0)
+
+                v_messages = sign_product * min_magnitudes
 
                 # Reshape to match expected output
                 v_messages = v_messages.view(batch_size, -1)
